@@ -67,7 +67,10 @@ def make_simops(circuit, flavour, caps, c_reuse, strip_forks, actrl=None, case=N
     elif caps.get('vec') is None: cc = int(caps.get('default', 16))
     else:
         cc = [int(caps['vec'][l % len(caps['vec'])]) for l in range(nl + 3 if caps.get('plus3', True) else nl)]
-        if caps.get('dtype', 'list') != 'list': cc = np.array(cc, dtype=wsim.fitting_dtype(caps['dtype'], max(cc) if cc else 0))
+        if caps.get('dtype') == 'tuple': cc = tuple(cc)
+        elif caps.get('dtype', 'list') != 'list':
+            cc = np.array(cc, dtype=wsim.fitting_dtype(caps['dtype'], max(cc) if cc else 0))
+            if caps.get('readonly'): cc.flags.writeable = False
     return ksim.SimOps(circuit, c_caps=cc, c_caps_min=4, a_ctrl=actrl, c_reuse=c_reuse, strip_forks=strip_forks)
 
 
